@@ -20,6 +20,7 @@ import (
 
 	"verif/sim/core"
 	"verif/sim/env"
+	"verif/sim/fam"
 	"verif/sim/ops"
 	"verif/sim/simdrv"
 	"verif/sim/simpool"
@@ -34,6 +35,7 @@ type Case struct {
 	Nest       int      `json:"nest"`        // Transaction blocks around the operation (0..3)
 	ViaSession bool     `json:"via_session"` // Session{Context} instead of WithContext
 	Warm       bool     `json:"warm"`        // run the operation once before (statements already prepared / schemas parsed)
+	HookStmts  bool     `json:"hook_stmts"`  // model hooks issue a statement of their own through the *gorm.DB they are given
 	MaxSites   int      `json:"max_sites"`
 	Pick       int64    `json:"pick_seed"`
 	Only       []int    `json:"only,omitempty"` // cancellation points to run: -1 = cancelled before the call, k = before pool call k
@@ -65,7 +67,7 @@ func ctxTag(ctx context.Context) string {
 }
 
 func (Prop) Gen(r *core.Rand, tier string) interface{} {
-	c := &Case{Prepare: r.Chance(40), PoolShim: r.Chance(70), ViaSession: r.Chance(30), Warm: r.Chance(30), Pick: r.Int63()}
+	c := &Case{Prepare: r.Chance(40), PoolShim: r.Chance(70), ViaSession: r.Chance(30), Warm: r.Chance(30), HookStmts: r.Chance(30), Pick: r.Int63()}
 	if r.Chance(50) {
 		c.Nest = r.Range(1, 3)
 	}
@@ -121,6 +123,7 @@ func (Prop) Shrink(ci interface{}) []interface{} {
 		func(v *Case) bool { x := v.Prepare; v.Prepare = false; return x },
 		func(v *Case) bool { x := v.ViaSession; v.ViaSession = false; return x },
 		func(v *Case) bool { x := v.Warm; v.Warm = false; return x },
+		func(v *Case) bool { x := v.HookStmts; v.HookStmts = false; return x },
 	} {
 		v := *c
 		if f(&v) {
@@ -141,7 +144,12 @@ func (c *Case) kind() string {
 	return "assoc_" + c.A.Kind + "_" + c.A.Assoc
 }
 
-func (c *Case) op(db *gorm.DB) ops.Result {
+func (c *Case) op(db *gorm.DB) (res ops.Result) {
+	defer func() {
+		if pv := recover(); pv != nil {
+			res = ops.Result{Err: fmt.Errorf("panic: %v", pv)}
+		}
+	}()
 	switch {
 	case c.W != nil:
 		return c.W.Exec(db)
@@ -170,7 +178,20 @@ func (p Prop) exec(c *Case, cancelAt int) (*execInfo, error) {
 			return pool
 		}
 	}
-	sr, err := ops.RunSingle(o, nil, nil, func(e *env.Env) ops.Result {
+	var action ops.HookAction
+	if c.HookStmts {
+		action = func(hc fam.HookCall, ev *ops.HookEvent) error {
+			if hc.Hook == "BeforeSave" || hc.Hook == "AfterFind" || hc.Hook == "BeforeDelete" || hc.Hook == "AfterUpdate" {
+				var n int64
+				// the hook's own statement runs on the operation's behalf; like any sensible hook it reports its failure
+				if err := hc.Tx.Model(&fam.Note{}).Where("rank >= ?", 0).Count(&n).Error; err != nil {
+					return err
+				}
+			}
+			return nil
+		}
+	}
+	sr, err := ops.RunSingle(o, nil, action, func(e *env.Env) ops.Result {
 		e.Drv.CtxTag = ctxTag
 		if c.Warm {
 			warm := context.WithValue(context.Background(), tagKey{}, "warm-up")
